@@ -370,6 +370,8 @@ def convert_to(E, v, dst):
         return v0
     if isinstance(v0, I) and d in WIDTH:
         return E.cast(v0, d, 'IntToInt')
+    if (isinstance(v0, bool) or (z3.is_expr(v0) and z3.is_bool(v0))) and d in WIDTH:
+        return E.cast(v0, d, 'IntToInt')
     if isinstance(v0, I) and v0.t == 'char' and d == 'String':
         return VecV(encode_char(E, v0), 'String')
     return None
@@ -1787,7 +1789,7 @@ def _extend(E, ci, v, it):
         if isinstance(v, VecV) and v.kind == 'String':
             x = deref(x)
             if isinstance(x, I):
-                v.buf.extend(encode_char(E, x))
+                v.buf.extend(encode_char(E, x) if x.t == 'char' else [x])
             else:
                 v.buf.extend(items_of(x))
         else:
@@ -1835,11 +1837,16 @@ def _join(E, ci, s, *sep):
     parts = items_of(s)
     sp = list(items_of(sep[0])) if sep else []
     out = []
+    textual = True
     for i, p in enumerate(parts):
         if i:
             out += sp
+        pv = deref(p)
+        if not ((isinstance(pv, Slice) and pv.kind == 'str') or (isinstance(pv, VecV) and pv.kind == 'String')):
+            textual = False
         out += list(items_of(p))
-    return VecV(out, 'String')
+    # [&str].concat()/join -> String ; [&[u8]] / [Vec<u8>] -> Vec<u8>
+    return VecV(out, 'String' if (textual and parts) or not parts and 'str' in (ci.self_ty or ci.raw) else 'Vec')
 
 
 @model('slice::iter', 'Vec::iter', 'slice::iter_mut', 'Vec::iter_mut')
@@ -2048,6 +2055,9 @@ def fallback(E, ci, argv, fr):
                 return E.call_fn(cands[0], argv, ci)
         if isinstance(v, Obj) and hasattr(v, 'methods') and ci.method in v.methods:
             return v.methods[ci.method](E, ci, *argv)
+    if ci.kind == 'trait' and ci.trait_last == 'Digest' and ci.method == 'digest':
+        from .models_env import hasher_type, digest_bytes
+        return VecV(digest_bytes(E, hasher_type(E, ci, fr), list(items_of(argv[0]))), 'GenericArray')
     if ci.kind == 'trait' and ci.trait_last == 'Digest' and ci.method == 'new':
         from .models_env import hasher_type
         return Obj('Hasher', alg=hasher_type(E, ci, fr), data=[])
@@ -2461,3 +2471,69 @@ def _vec_forward(E, ci, v, *a):
     if ci.method == 'to_vec':
         return MODELS['slice::to_vec'](E, ci, v)
     return MODELS['slice::' + ci.method](E, ci, v, *a)
+
+
+# ---- operator traits called explicitly (operands behind references, closures passed as fn items ...)
+def _optrait(op):
+    def f(E, ci, a, b):
+        return E.binop(op, deref(a), deref(b))
+    return f
+
+
+for _tr, _m, _op in (('Add', 'add', 'Add'), ('Sub', 'sub', 'Sub'), ('Mul', 'mul', 'Mul'), ('Div', 'div', 'Div'),
+                     ('Rem', 'rem', 'Rem'), ('Shr', 'shr', 'Shr'), ('Shl', 'shl', 'Shl'), ('BitAnd', 'bitand', 'BitAnd'),
+                     ('BitOr', 'bitor', 'BitOr'), ('BitXor', 'bitxor', 'BitXor')):
+    def _mk(_op=_op):
+        def f(E, ci, a, b):
+            a, b = deref(a), deref(b)
+            if _op in ('Add', 'Sub', 'Mul') and isinstance(a, I):
+                r = E.binop(_op + 'WithOverflow', a, b)
+                if E.branch(r.fields[1]):
+                    raise Panic('attempt to ' + _op.lower() + ' with overflow')
+                return r.fields[0]
+            if _op in ('Div', 'Rem') and isinstance(b, I) and E.branch(i_eq(b, I(b.t, 0))):
+                raise Panic('attempt to divide by zero')
+            return E.binop(_op, a, b)
+        return f
+
+    def _mka(_op=_op):
+        def f(E, ci, a, b):
+            cur = a.get()
+            a.set(_mk(_op)(E, ci, cur, b))
+            return UNIT
+        return f
+    MODELS[f'{_tr}::{_m}'] = _mk()
+    MODELS[f'{_tr}Assign::{_m}_assign'] = _mka()
+
+
+@model('Not::not')
+def _not_trait(E, ci, a):
+    a = deref(a)
+    if isinstance(a, I):
+        return mkint(a.t, ~a.v) if a.conc() else I(a.t, ~a.v)
+    return b_not(a)
+
+
+@model('Neg::neg')
+def _neg_trait(E, ci, a):
+    a = deref(a)
+    return mkint(a.t, -a.v) if a.conc() else I(a.t, -a.v)
+
+
+@model('slice::strip_prefix')
+def _slice_strip_prefix(E, ci, s, p):
+    s = as_slice(s)
+    pre = items_of(p)
+    if len(pre) <= len(s) and E.branch(b_and(*[val_eq(E, x, y) for x, y in zip(s.items(), pre)])):
+        return some(s.sub(len(pre), len(s)))
+    return none()
+
+
+@model('slice::strip_suffix')
+def _slice_strip_suffix(E, ci, s, p):
+    s = as_slice(s)
+    suf = items_of(p)
+    n = len(s) - len(suf)
+    if n >= 0 and E.branch(b_and(*[val_eq(E, x, y) for x, y in zip(s.items()[n:], suf)])):
+        return some(s.sub(0, n))
+    return none()
